@@ -155,6 +155,7 @@ func c37Exec(c c37Case, x *pbt.Ctx) error {
 	})
 	// readers
 	readers := func() error {
+		rix := 0
 		yield(c.Yields[3])
 		for {
 			select {
@@ -171,6 +172,21 @@ func c37Exec(c c37Case, x *pbt.Ctx) error {
 			n.Pool.GetTransactions()
 			h := best.Hash()
 			n.Chain.GetBlockByHash(&h)
+			// what a peer asking for headers or blocks gets: the stored header of a checkpoint block,
+			// verification signatures included, serialised (every byte of it is read)
+			if len(cps) > 0 {
+				ch := w.Hash(cps[rix%len(cps)])
+				rix++
+				if hdr, err := n.Chain.GetHeaderByHash(&ch); err == nil {
+					hdr.MarshalText()
+				}
+				if blk, err := n.Chain.GetBlockByHash(&ch); err == nil {
+					blk.MarshalText()
+				}
+			}
+			if hdr, err := n.Chain.LastJustifiedHeader(); err == nil {
+				hdr.MarshalText()
+			}
 			yield(1 + c.Yields[4]%5)
 		}
 	}
